@@ -5,8 +5,8 @@
 
 1. fresh worktree of /repo HEAD under /tmp/seedchk/<ID>: demo without the change must PASS, with it must FAIL,
    the repository's own test suite must give the same per-package results as on the untouched tree;
-2. apply the change to /repo itself (git apply), run ./check for the requested properties, undo it straight
-   afterwards (git checkout -- .);
+2. run ./check for the requested properties against that worktree with the change applied (VERIF_REPO; /repo itself is
+   not touched);
 3. store patch, demonstration and meta.json under /verif/seeded/<ID>/ and remove the worktree.
 """
 import glob, json, os, re, shutil, subprocess, sys, time
@@ -94,31 +94,27 @@ def main():
         meta["builds"] = "does not compile" not in out and ".go:" not in out
         confirmed = meta["patch_applies"] and meta["demo_without_change"] == "PASS" and meta["demo_with_change"] == "FAIL" and meta["suite_same_as_baseline"]
         meta["confirmed"] = bool(confirmed)
-        # run the registered checks against /repo with the change applied
+        # run the registered checks against the scratch worktree that holds the change (VERIF_REPO): /repo itself is never
+        # touched, so other runs against it are not disturbed; the demonstration package is removed first
         results = {}
         if meta["patch_applies"]:
-            st = sh("git -C /repo status --porcelain")[1].strip()
-            if st:
-                raise SystemExit("/repo is not clean:\n" + st)
-            rc, out = sh("git -C /repo apply %s" % patch)
-            if rc != 0:
-                results["apply_to_repo"] = out[-1000:]
-            else:
-                try:
-                    for c in checks:
-                        t0 = time.time()
-                        rc, out = sh("VERIF_OUTROOT=%s ./check %s --tier %s" % (os.path.join(VERIF, ".work", "seedout"), c, tier), cwd=VERIF, timeout=3600)
-                        viol = [l for l in out.splitlines() if l.startswith("VIOLATION")]
-                        first = ""
-                        lines = out.splitlines()
-                        for j, l in enumerate(lines):
-                            if l.startswith("VIOLATION"):
-                                first = "\n".join(lines[j:j + 4])[:1200]
-                                break
-                        results[c] = dict(exit=rc, violations=len(viol), wall_s=round(time.time() - t0, 1), first=first, tail=out.splitlines()[-1] if out.strip() else "")
-                finally:
-                    sh("git -C /repo checkout -- .")
-                    sh("git -C /repo clean -fdq -- v2/zz_demo zz_demo")
+            import hashlib
+            shutil.rmtree(demo_dir, ignore_errors=True)
+            alt = os.path.join(VERIF, ".work", "alt-" + hashlib.md5(wt.encode()).hexdigest()[:8])
+            try:
+                for c in checks:
+                    t0 = time.time()
+                    rc, out = sh("VERIF_REPO=%s VERIF_OUTROOT=%s ./check %s --tier %s" % (wt, os.path.join(VERIF, ".work", "seedout"), c, tier), cwd=VERIF, timeout=3600)
+                    viol = [l for l in out.splitlines() if l.startswith("VIOLATION")]
+                    first = ""
+                    lines = out.splitlines()
+                    for j, l in enumerate(lines):
+                        if l.startswith("VIOLATION") or l.startswith("INFRA"):
+                            first = "\n".join(lines[j:j + 4])[:1200]
+                            break
+                    results[c] = dict(exit=rc, violations=len(viol), wall_s=round(time.time() - t0, 1), first=first, tail=out.splitlines()[-1] if out.strip() else "")
+            finally:
+                sh("chmod -R u+w %s 2>/dev/null; rm -rf %s" % (alt, alt))
         meta["checks"] = results
         meta["caught_by"] = [c for c, r in results.items() if isinstance(r, dict) and r.get("exit") == 1]
     finally:
